@@ -64,7 +64,7 @@ Print Assumptions rows_agree.
 Theorem exit_row_matches_functype : forall c c' inputs, (c_exit c < length (c_bbs c))%nat ->
   insert_return_vars c = Some c' ->
   map v_ty (b_in (get_bb c (c_exit c))) = map fst (filter snd inputs) ->
-  map v_ty (declared c' (c_exit c')) = functype_outputs (c_ret c) inputs.
+  map v_ty (declared c' (c_exit c')) = functype_outputs (map fst (c_ret c)) inputs.
 Proof. exact exit_row_functype_main. Qed.
 Print Assumptions exit_row_matches_functype.
 
@@ -91,7 +91,7 @@ Definition ex_cfg : cfg := mkCfg
     mkBB [vq] [[vy; vq]] [3%nat];
     mkBB [vq; vy] [[]] [4%nat];                             (* different order than its preds *)
     mkBB [] [] [] ]                                         (* exit *)
-  0 4 [0].
+  0 4 [(0, true)].
 
 Definition ex_cfg' : cfg :=
   match guarded_insert ex_cfg with Some c => c | None => ex_cfg end.
